@@ -30,6 +30,7 @@ type World struct {
 	TagOf     map[string]int       // dynamic type string -> tag
 	TagNames  []string
 	Sentinels map[*ssa.Global]int // package-level error sentinels (errors.New) -> id
+	SentinelType map[*ssa.Global]types.Type // dynamic type when initialised by a conversion
 	ToolErrs  []string
 	tagTypeMap map[int]types.Type
 	tagsAtLoad int
@@ -213,8 +214,11 @@ func (w *World) findSentinels() {
 						}
 					}
 					if mi, ok := st.Val.(*ssa.MakeInterface); ok {
-						_ = mi
 						inits[g] = true
+						if w.SentinelType == nil {
+							w.SentinelType = map[*ssa.Global]types.Type{}
+						}
+						w.SentinelType[g] = mi.X.Type()
 					}
 				}
 			}
@@ -435,6 +439,9 @@ func (w *World) preRegisterTags(specDir string) {
 	}
 	sort.Slice(fns, func(i, j int) bool { return fns[i].String() < fns[j].String() })
 	w.tagFor(types.NewPointer(types.Typ[types.Invalid])) // sentinel pseudo type
+	for _, dt := range w.SentinelType {
+		_ = dt
+	}
 	seen := map[types.Type]bool{}
 	var reg func(t types.Type, depth int)
 	reg = func(t types.Type, depth int) {
